@@ -100,6 +100,11 @@ func main() {
 			os.Exit(1)
 		}
 		p.alias = nil
+		if len(pos) == 1 && pos[0] == "fields" {
+			b, _ := json.MarshalIndent(p.FieldTable(), "", " ")
+			fmt.Println(string(b))
+			return
+		}
 		b, _ := json.MarshalIndent(p.AnchorTable(), "", " ")
 		fmt.Println(string(b))
 	case "coverage":
